@@ -119,6 +119,13 @@ class Contract:
         self.__dict__.setdefault("locals_", {})[name] = ty
         return self
 
+    def fragment(self, header, requires=()):
+        """Verify only the statement whose first line is `header`, from an entry state in which the
+        locals declared with c.local() are arbitrary values satisfying `requires`."""
+        self.fragment_ = header
+        self.frag_requires_ = [("frag-pre%d" % i, e) for i, e in enumerate(requires)]
+        return self
+
     def returns(self, ty):
         self.ret = ty
         return self
